@@ -242,7 +242,7 @@ enum What {
     /// TCP: half of the reply, then the connection stays open and silent
     PartialHold { entry: usize, v6: bool, ms: u64, retries: usize },
     Master { v6: bool, ms: u64 },
-    Eco { v6: bool, ms: u64, hold: bool },
+    Eco { v6: bool, ms: u64, hold: bool, variant: u8 },
     Echo { tcp: bool, v6: bool },
 }
 
@@ -300,8 +300,12 @@ fn build(tier: Tier) -> Vec<Case> {
     }
     for v6 in [false, true] {
         for ms in timeouts {
-            v.push(Case { label: format!("eco (http) {} accept-then-hold, timeout {ms} ms", if v6 { "::1" } else { "127.0.0.1" }), what: What::Eco { v6, ms: *ms, hold: true } });
-            v.push(Case { label: format!("eco (http) {} connection refused, timeout {ms} ms", if v6 { "::1" } else { "127.0.0.1" }), what: What::Eco { v6, ms: *ms, hold: false } });
+            v.push(Case { label: format!("eco (http) {} accept-then-hold, timeout {ms} ms", if v6 { "::1" } else { "127.0.0.1" }), what: What::Eco { v6, ms: *ms, hold: true, variant: 0 } });
+            v.push(Case { label: format!("eco (http) {} connection refused, timeout {ms} ms", if v6 { "::1" } else { "127.0.0.1" }), what: What::Eco { v6, ms: *ms, hold: false, variant: 0 } });
+            // the HTTP client is configured separately from the sockets: the read timeout must hold whichever others are absent
+            for variant in 1 ..= 4u8 {
+                v.push(Case { label: format!("eco (http) {} accept-then-hold, read timeout {ms} ms, other timeouts variant {variant}", if v6 { "::1" } else { "127.0.0.1" }), what: What::Eco { v6, ms: *ms, hold: true, variant } });
+            }
         }
         v.push(Case { label: format!("master server {} silent (built-in default timeout)", if v6 { "::1" } else { "127.0.0.1" }), what: What::Master { v6, ms: 4000 } });
         for tcp in [false, true] {
@@ -324,13 +328,16 @@ fn ts(ms: u64, retries: usize) -> Option<TimeoutSettings> {
     TimeoutSettings::new(Some(Duration::from_millis(ms)), Some(Duration::from_millis(ms)), Some(Duration::from_millis(ms)), retries).ok()
 }
 
-/// Read timeout `ms`; write and connect timeouts far larger (variant 1) or absent (variant 2): a blocking
-/// receive must be bounded by the READ timeout alone.
+/// Read timeout `ms`; write and connect timeouts far larger (variant 1), both absent (variant 2), only the write timeout
+/// absent (3) or only the connect timeout absent (4): a blocking receive must be bounded by the READ timeout alone.
 fn ts_variant(ms: u64, retries: usize, variant: u8) -> Option<TimeoutSettings> {
+    let d = Some(Duration::from_millis(ms));
     match variant {
         0 => ts(ms, retries),
-        1 => TimeoutSettings::new(Some(Duration::from_millis(ms)), Some(Duration::from_secs(30)), Some(Duration::from_secs(30)), retries).ok(),
-        _ => TimeoutSettings::new(Some(Duration::from_millis(ms)), None, None, retries).ok(),
+        1 => TimeoutSettings::new(d, Some(Duration::from_secs(30)), Some(Duration::from_secs(30)), retries).ok(),
+        2 => TimeoutSettings::new(d, None, None, retries).ok(),
+        3 => TimeoutSettings::new(d, None, d, retries).ok(),
+        _ => TimeoutSettings::new(d, d, None, retries).ok(),
     }
 }
 
@@ -569,7 +576,7 @@ impl Prop for C12 {
                     Some((k2, d)) => ctx.violation(format!("real-socket:{k2}:udp"), &[], format!("{}: {d}", case.label), d.clone(), "a receive-class error within the default timeout", vec![]),
                 }
             }
-            What::Eco { v6, ms, hold } => {
+            What::Eco { v6, ms, hold, variant } => {
                 let ip = loop_ip(v6);
                 let (port, _keep) = if hold {
                     let Some(s) = spawn_tcp(ip, Arc::new(|| Box::new(crate::vnet::Silent)), 0) else { return };
@@ -578,7 +585,7 @@ impl Prop for C12 {
                     let Some(p) = super::common::closed_port(ip, true) else { return };
                     (p, None)
                 };
-                let t = ts(ms, 0);
+                let t = ts_variant(ms, 0, variant);
                 let bound = Duration::from_millis(ms) * 2 + SLACK;
                 let r = with_watchdog(bound * 4 + Duration::from_secs(5), move || gamedig::games::eco::query_with_timeout(&ip, Some(port), &t).map(|r| to_json(&r)));
                 ctx.counters.transitions += 1;
